@@ -395,7 +395,11 @@ def run(ctx):
             e["count"] += 1
         return t
     bad = {x.idx for x in rej}
-    ctx.selftest_rejects("PoliciesTrace", [t for i, t in enumerate(traces) if i not in bad][nshort:nshort + 200], mutate, n=12)
+    good = [t for i, t in enumerate(traces) if i not in bad and i >= nshort] or [t for i, t in enumerate(traces) if i not in bad]
+    if good:
+        ctx.selftest_rejects("PoliciesTrace", good[:200], mutate, n=12)
+    else:
+        ctx.log("selftest skipped: no accepted trace to corrupt")
 
 
 def replay(ctx, obj):
